@@ -524,10 +524,10 @@ func (c *tvCtx) foldStmts(list []ast.Stmt) []ast.Stmt {
 			n.List = c.foldStmts(n.List)
 			out = append(out, n)
 		case *ast.ForStmt:
-			n.Body.List = c.foldStmts(n.Body.List)
+			n.Body.List = c.guardedTail(c.foldStmts(n.Body.List))
 			out = append(out, n)
 		case *ast.RangeStmt:
-			n.Body.List = c.foldStmts(n.Body.List)
+			n.Body.List = c.guardedTail(c.foldStmts(n.Body.List))
 			out = append(out, n)
 		case *ast.SwitchStmt:
 			for _, cc := range n.Body.List {
@@ -572,6 +572,38 @@ func (c *tvCtx) foldStmts(list []ast.Stmt) []ast.Stmt {
 		}
 	}
 	return out
+}
+
+// guardedTail rewrites, in a loop body, `if c { continue }; S...` into `if !c { S... }` (S being the rest of the body):
+// the two forms of guarding the tail of an iteration are the same program.
+func (c *tvCtx) guardedTail(list []ast.Stmt) []ast.Stmt {
+	for i, s := range list {
+		ifs, ok := s.(*ast.IfStmt)
+		if !ok || ifs.Init != nil || ifs.Else != nil || len(ifs.Body.List) != 1 {
+			continue
+		}
+		br, ok := ifs.Body.List[0].(*ast.BranchStmt)
+		if !ok || br.Tok != token.CONTINUE || br.Label != nil {
+			continue
+		}
+		rest := c.guardedTail(append([]ast.Stmt(nil), list[i+1:]...))
+		if len(rest) == 0 {
+			return list[:i]
+		}
+		var cond ast.Expr
+		if u, isNot := ifs.Cond.(*ast.UnaryExpr); isNot && u.Op == token.NOT {
+			cond = u.X
+			if pe, isP := cond.(*ast.ParenExpr); isP {
+				cond = pe.X
+			}
+		} else {
+			cond = &ast.UnaryExpr{Op: token.NOT, X: ifs.Cond}
+		}
+		c.used("`if c { continue }; rest` rewritten to `if !c { rest }` at the tail of a loop body")
+		out := append([]ast.Stmt(nil), list[:i]...)
+		return append(out, &ast.IfStmt{Cond: cond, Body: &ast.BlockStmt{List: rest}})
+	}
+	return list
 }
 
 // ---- canonical printer ----
@@ -711,9 +743,117 @@ func literalInit(s ast.Stmt) (string, bool) {
 	return "", false
 }
 
+// pureDefine: `a, b := e1, e2` with identifiers on the left and right-hand sides free of calls (except len and
+// conversions to basic types), channel operations and function literals: evaluating it has no effect but the definition.
+func pureDefine(s ast.Stmt) (*ast.AssignStmt, bool) {
+	a, ok := s.(*ast.AssignStmt)
+	if !ok || a.Tok != token.DEFINE {
+		return nil, false
+	}
+	for _, l := range a.Lhs {
+		if _, ok := l.(*ast.Ident); !ok {
+			return nil, false
+		}
+	}
+	pure := true
+	for _, r := range a.Rhs {
+		ast.Inspect(r, func(n ast.Node) bool {
+			switch x := n.(type) {
+			case *ast.CallExpr:
+				if id, ok := x.Fun.(*ast.Ident); !ok || (id.Name != "len" && id.Name != "int" && id.Name != "string" && id.Name != "byte") {
+					pure = false
+				}
+			case *ast.FuncLit:
+				pure = false
+			case *ast.UnaryExpr:
+				if x.Op == token.ARROW {
+					pure = false
+				}
+			}
+			return pure
+		})
+	}
+	return a, pure
+}
+
+// shape prints an expression with every identifier replaced by "_" (name-free), peek prints it with the names
+// assigned so far and "_" for locals not yet named; neither assigns a name.
+func (p *canonPrinter) shape(e ast.Expr, peek bool) string {
+	q := &canonPrinter{locals: map[string]bool{}, names: map[string]string{}}
+	var idents []string
+	ast.Inspect(e, func(n ast.Node) bool {
+		if id, ok := n.(*ast.Ident); ok {
+			idents = append(idents, id.Name)
+		}
+		return true
+	})
+	for _, id := range idents {
+		switch {
+		case id == "true" || id == "false" || id == "nil":
+		case peek && p.names[id] != "":
+			q.names[id] = p.names[id]
+		case peek && !p.locals[id]:
+			// a global: printed as it is
+		default:
+			q.names[id] = "_"
+		}
+	}
+	return q.expr(e)
+}
+
 func (p *canonPrinter) block(list []ast.Stmt) {
 	p.depth++
 	for i := 0; i < len(list); i++ {
+		// a run of adjacent, mutually independent definitions with effect-free right-hand sides is order-independent:
+		// print it in a canonical order (by name-free shape, then by the names already assigned)
+		if _, ok := pureDefine(list[i]); ok {
+			j := i
+			defined := map[string]bool{}
+			for j < len(list) {
+				a, ok := pureDefine(list[j])
+				if !ok {
+					break
+				}
+				uses := false
+				for _, r := range a.Rhs {
+					ast.Inspect(r, func(n ast.Node) bool {
+						if id, ok := n.(*ast.Ident); ok && defined[id.Name] {
+							uses = true
+						}
+						return true
+					})
+				}
+				if uses {
+					break
+				}
+				for _, l := range a.Lhs {
+					defined[l.(*ast.Ident).Name] = true
+				}
+				j++
+			}
+			if j-i > 1 {
+				run := append([]ast.Stmt(nil), list[i:j]...)
+				key := func(s ast.Stmt) string {
+					a := s.(*ast.AssignStmt)
+					var k1, k2 []string
+					for _, r := range a.Rhs {
+						k1 = append(k1, p.shape(r, false))
+						k2 = append(k2, p.shape(r, true))
+					}
+					return strings.Join(k1, ",") + "\x00" + strings.Join(k2, ",")
+				}
+				keys := map[ast.Stmt]string{}
+				for _, s := range run {
+					keys[s] = key(s)
+				}
+				sort.SliceStable(run, func(a, b int) bool { return keys[run[a]] < keys[run[b]] })
+				for _, s := range run {
+					p.stmt(s)
+				}
+				i = j - 1
+				continue
+			}
+		}
 		// a run of adjacent initialisations of fresh locals with literals is order-independent: print it sorted
 		if _, ok := literalInit(list[i]); ok {
 			j := i
